@@ -48,6 +48,13 @@ inductive Half : (P2P × TLState) → (P2P × TLState) → (P2P × TLState) → 
       s.handleEventCore now (.input ⟨(f : Int), v⟩ player) handles addr = .ok s' →
       Half (s, t) b (s', t)
 
+  /-- an input of a player that NEITHER of the two sessions owns arrives (a third peer's player): any
+  frame, any value — whatever the rest of a larger session does is irrelevant to the pair -/
+  | arriveOther (s s' : P2P) (t : TLState) (b : P2P × TLState) (now : Nat) (inp : PlayerInput) (player : Nat)
+      (handles : List Nat) (addr : Nat) :
+      player ∉ s.localPlayerHandles → player ∉ b.1.localPlayerHandles → 0 ≤ inp.frame →
+      s.handleEventCore now (.input inp player) handles addr = .ok s' → Half (s, t) b (s', t)
+
 /-- One step of the pair: one of the two sessions moves. -/
 inductive PStep : ((P2P × TLState) × (P2P × TLState)) → ((P2P × TLState) × (P2P × TLState)) → Prop
   | left (a a' b : P2P × TLState) : Half a b a' → PStep (a, b) (a', b)
@@ -210,7 +217,24 @@ theorem half_inv (a b a' : P2P × TLState) (ghA ghB : Ghost) (h : PairInv a b gh
       show PrefixOf (ghB.specs p).vals (gh'.specs p).vals
       rw [hsp p, if_neg hpp]
       exact h.ba p hp' hn
+  | arriveOther s s' t b now inp player handles addr hnl hnb h0 hev =>
+    obtain ⟨gh', hinv', hg', _, _, hh, hsp⟩ := glue_remoteInputX s s' ghA t now inp player handles addr h.sa h.ga hnl h0 hev
+    have hlp : s'.localPlayerHandles = s.localPlayerHandles := by unfold P2P.localPlayerHandles; rw [hh]
+    refine ⟨gh', hinv', hg', h.sb, h.gb, ?_, ?_⟩
+    · intro p hp hn
+      have hn' : p ∉ s.localPlayerHandles := by rw [← hlp]; exact hn
+      have hpp : p ≠ player := fun e => hnb (e ▸ hp)
+      show PrefixOf (gh'.specs p).vals (ghB.specs p).vals
+      rw [hsp p, if_neg hpp]
+      exact h.ab p hp hn'
+    · intro p hp hn
+      have hp' : p ∈ s.localPlayerHandles := by rw [← hlp]; exact hp
+      have hpp : p ≠ player := fun e => hnl (e ▸ hp')
+      show PrefixOf (ghB.specs p).vals (gh'.specs p).vals
+      rw [hsp p, if_neg hpp]
+      exact h.ba p hp' hn
 
+/- (the case of a third peer's player is part of `half_inv` above) -/
 def PPInv (x : (P2P × TLState) × (P2P × TLState)) : Prop := ∃ ghA ghB, PairInv x.1 x.2 ghA ghB
 
 theorem PPInv_step (x y : (P2P × TLState) × (P2P × TLState)) (h : PPInv x) (hs : PStep x y) : PPInv y := by
